@@ -42,8 +42,17 @@ fn strategy(mode: Mode) -> BoxedStrategy<HistInput> {
         Mode::C17 => 8,
         Mode::C18 => 12,
     };
-    hist_strategy(COMMON_TYPES, V2_STORAGES, op_mix(mode), 10, stale)
-        .prop_map(move |mut h| {
+    (hist_strategy(COMMON_TYPES, V2_STORAGES, op_mix(mode), 8, stale), op_append(), op_append(), any::<u16>(), prop::bool::weighted(0.7))
+        .prop_map(move |(mut h, a1, a2, v, with_core)| {
+            if mode == Mode::C07 && with_core {
+                // guaranteed shape: rows inserted, a restore of an earlier version, rows inserted again
+                let split = h.steps.len() / 2;
+                let tail: Vec<Step> = h.steps.split_off(split);
+                h.steps.push(Step { op: a1, stale: None });
+                h.steps.push(Step { op: Op::Restore { v: v / 2 }, stale: None });
+                h.steps.push(Step { op: a2, stale: None });
+                h.steps.extend(tail);
+            }
             // C17 and C18 are about stable row ids; C07 covers both settings
             if mode != Mode::C07 {
                 h.cfg.stable_row_ids = true;
